@@ -381,6 +381,9 @@ func (w *redisWorld) fireFaults() {
 		if !due && w.sc.IdleFaults && w.firstSend >= 0 && w.clientsSettled() && w.env.Quiet() {
 			due = true
 		}
+		if !due && f.Kind == "unstall" && w.firstSend >= 0 && len(parked) == 0 && len(w.rt.Events()) == 0 {
+			due = true // everything waits for the stalled node: it answers again now
+		}
 		if !due {
 			continue
 		}
@@ -435,6 +438,15 @@ func (w *redisWorld) inject(f *Fault) bool {
 		return true
 	case "silent":
 		n.Silent = true
+		return true
+	case "stall":
+		n.Stalled = true
+		return true
+	case "unstall":
+		if !n.Stalled {
+			return false
+		}
+		n.Unstall()
 		return true
 	case "refuse":
 		w.env.Net.SetDown(n.Addr, simnet.DialRefused)
@@ -792,7 +804,7 @@ func (w *redisWorld) Final() *simrt.Violation {
 	// liveness is not judged then (the proxy has no request timeout; silence without connection loss is outside
 	// C02's fault space, and Stop with silent backends is judged by C09)
 	for _, n := range w.env.Cluster.Nodes {
-		if n.Silent && n.OpenConns() > 0 && !w.judgeSilent {
+		if (n.Silent || n.Stalled) && n.OpenConns() > 0 && !w.judgeSilent {
 			if w.fin != nil {
 				return w.fin(w)
 			}
